@@ -118,8 +118,10 @@ PROPS = {
     "C09": dict(
         engine="compsim", profile="C09", builds=["dbg", "rwdi"], level="exploration",
         parts=[dict(engine="compsim", profile="C09", builds=["dbg", "rwdi"], weight=2.0),
-               dict(engine="compsim", profile="C09S", builds=["dbg", "rwdi"], weight=1.0)],
-        quick_s=40, thorough_s=600, rule='each run = one plan drawn from a 63-bit seed (composition / helper, leaf limits and budgets, thresholds, request shapes, leaf or constructor failures attached to operations), executed against the real adapter templates over logging leaf allocators; distinct = distinct run hash (op outcomes, returned offsets, leaf ledger); non-trivial = at least one release through the composition and (a request served by a non-first leaf or at least 4 operations)',
+               dict(engine="compsim", profile="C09S", builds=["dbg", "rwdi"], weight=1.0),
+               # deeply tracked pool / stack: growth, shrink and node events, across moves
+               dict(engine="compsim", profile="C09D", builds=["dbg", "rwdi"], weight=0.6)],
+        quick_s=45, thorough_s=600, rule='each run = one plan drawn from a 63-bit seed (composition / helper, leaf limits and budgets, thresholds, request shapes, leaf or constructor failures attached to operations), executed against the real adapter templates over logging leaf allocators; distinct = distinct run hash (op outcomes, returned offsets, leaf ledger); non-trivial = at least one release through the composition and (a request served by a non-first leaf or at least 4 operations)',
         stubs=["logging leaf RawAllocators (with/without array members, composable or not, stateful or "
                "stateless, budgets, failure at the k-th call) over SimHeap", "recording Tracker",
                "instrumented element types"],
@@ -197,7 +199,10 @@ PROPS = {
         design="3/C11"),
     "C12": dict(
         engine="histsim", profile="C12", builds=["dbg", "rwdi", "rel"], level="exploration",
-        quick_s=50, thorough_s=600,
+        parts=[dict(engine="histsim", profile="C12", builds=["dbg", "rwdi", "rel"], weight=5.0),
+               # moves of adapters that hold a pointer into themselves (deeply tracked allocators)
+               dict(engine="compsim", profile="C09D", builds=["dbg", "rwdi"], weight=0.6)],
+        quick_s=55, thorough_s=600,
         technique="deterministic simulation: move / move-assign / swap inserted at drawn history positions, "
                   "C01+C05 oracles continued across the move, assertions on",
         text="Histories with move construction (into slots below/above/between the blocks), move "
